@@ -27,7 +27,7 @@ def jobs(tier):
              defines=dict(NN=4, NE=3, TP_HI=1, SP_HI=0, PASSES=6), timeout=2400,
              require_tags={'end': 1, 'accept': 1, 'multi-tree': 1}),
         dict(name='n4e3-more-profiles', harness=H, entry='main_c01',
-             defines=dict(NN=4, NE=3, NS=1, TP_LO=2, TP_HI=4, SP_LO=1, SP_HI=2), timeout=2400,
+             defines=dict(NN=4, NE=3, NS=1, TP_LO=2, TP_HI=4, SP_LO=1, SP_HI=2), timeout=3000, allow_incomplete=True,
              require_tags={'end': 1, 'accept': 1, 'multi-tree': 1}),
         dict(name='n5e4', harness=H, entry='main_c01',
              defines=dict(NN=5, NE=4, TP_HI=0, SP_HI=0), timeout=3000, allow_incomplete=True,
